@@ -58,17 +58,24 @@ type World struct {
 	step  int
 	Log   []string
 	Acked int
+	// KVF, when set, provides the KV backend of every node created for this world
+	KVF func(id uint64) chord.KVProvider
 }
 
 // NewWorld creates a single-node ring on first.
 func NewWorld(first uint64, keys []string) (*World, error) {
-	r, err := Build([]uint64{first}, 0, nil)
+	return NewWorldKV(first, keys, nil)
+}
+
+// NewWorldKV is NewWorld with the given KV backend factory (nil = the memory backend).
+func NewWorldKV(first uint64, keys []string, kvf func(id uint64) chord.KVProvider) (*World, error) {
+	r, err := Build([]uint64{first}, 0, kvf)
 	if err != nil {
 		return nil, err
 	}
 	nt := NewNet()
 	nt.Add(r.Nodes[0])
-	return &World{Net: nt, Ring: r, Model: NewKVModel(), Keys: keys}, nil
+	return &World{Net: nt, Ring: r, Model: NewKVModel(), Keys: keys, KVF: kvf}, nil
 }
 
 // Workload issues one batch of KV operations: every key gets a new simple value or a
@@ -138,7 +145,11 @@ func (w *World) Apply(e Event) (changed bool, note string) {
 		// still hold for a departed node with this id now reach the new instance, as a
 		// RemoteNode addressed by identity would
 		old := w.Net.Nodes[e.X]
-		n := NewNode(e.X, nil)
+		var nkv chord.KVProvider
+		if w.KVF != nil {
+			nkv = w.KVF(e.X)
+		}
+		n := NewNode(e.X, nkv)
 		w.Net.Add(n)
 		if err := n.Join(w.Net.ViewOf(e.X, peer.ID())); err != nil {
 			note = "join refused: " + err.Error()
